@@ -155,5 +155,88 @@ let () =
                 (int_of_nat (nreads ord true ss sched q))
             | _ -> print_endline ("X\t" ^ line))
          | _ -> print_endline ("X\t" ^ line))
+    | "W" :: rest ->
+        (* a scheduled transaction-building call (harness/cmd/c17/build.go), replayed on coq/Sched/Build.v:
+           W <hist> <k> <call> <impl result> <model result> <model with kept picks = impl ? 1:0>
+             <S/L read transactions impl> <read transactions model> <boundary at which the predicate holds or -1>
+             <boundary at which the call run alone gives the implementation's answer or -1> <schedule> <lo> <hi> <other rts> *)
+        (match split_bar rest with
+         | [hd; pend; rts; res; result] ->
+           (match hd with
+            | w :: callp :: out :: nout :: userfee :: payload :: _nins :: mins ->
+              let call = List.hd (String.split_on_char '@' callp) in
+              let s = get_sim () in
+              let wn = n_of_int (int_of_string w) in
+              let op_of x = match String.split_on_char ':' x with
+                | [a; b] -> (n_of_int (int_of_string a), n_of_int (int_of_string b))
+                | _ -> failwith "op" in
+              let done_ = int_of_string (List.nth pend 1) in
+              let pendb = List.map (fun b -> Hashtbl.find blocks (int_of_string b)) (List.tl (List.tl pend)) in
+              let ss = stores_of !params (own_of s.s_own) s.s_node s.s_wallet pendb in
+              let nd = s.s_node in
+              let rt = List.map (fun x ->
+                  let kind = String.sub x 0 1 in
+                  match String.split_on_char ':' (String.sub x 1 (String.length x - 1)) with
+                  | [i; r] -> (kind, int_of_string i, int_of_string r)
+                  | _ -> failwith "rt") (List.tl rts) in
+              let reserved = List.map op_of (List.tl res) in
+              let sl = List.filter (fun (k, _, _) -> k = "S" || k = "L") rt in
+              let others = List.length rt - List.length sl in
+              let sc_i = List.map (fun (_, i, _) -> i) sl in
+              let sched = List.map nat_of_int (if sc_i = [] then [0] else sc_i) in
+              let lo = (match rt with (_, i, _) :: _ -> i | [] -> 0) and hi = done_ in
+              let q = { q_out = zs out; q_nout = zs nout; q_userfee = zs userfee; q_payload = zs payload } in
+              let all _ = true in
+              let show_ops l = String.concat " " (List.map (fun (a, b) -> Printf.sprintf "%d:%d" (int_of_n a) (int_of_n b)) l) in
+              let show_res (r : bres) = match r with
+                | BTx (ins, ch, fee) ->
+                  Printf.sprintf "ok %s %s %d %s" (string_of_z fee) (string_of_z (ZA.add (za_of_z (zs out)) (za_of_z ch) |> z_of_za))
+                    (List.length ins) (show_ops (List.map (fun c -> c.cr_op) ins))
+                | BRefused ov -> if ov then "err overfull" else "err insufficient"
+                | BLookup -> "err lookup"
+                | BOther -> "err other"
+                | BFuel -> "err model-out-of-fuel" in
+              let impl = String.concat " " result in
+              incr k;
+              if call = "MAN" then begin
+                let ins = List.map op_of mins in
+                let rd j = store_at ss (idx sched j) in
+                let (nm, okm) = manual_lookups nd rd (nat_of_int 3) (nat_of_int 0) ins in
+                let model = if okm then "ok" else "err lookup" in
+                let boundary = match result with
+                  | "ok" :: fee :: tot :: _ ->
+                    (match manual_boundary nd wn ss (nat_of_int lo) (nat_of_int hi) ins (zs tot) (zs fee) with
+                     | Some j -> int_of_nat j | None -> -1)
+                  | _ -> -2 in
+                Printf.printf "W\t%s\t%d\t%s\t%s\t%s\t0\t%d\t%d\t%d\t-2\t%s\t%d\t%d\t%d\n" !hist !k callp impl model
+                  (List.length sl) (int_of_nat nm) boundary
+                  (String.concat "," (List.map string_of_int sc_i)) lo hi others
+              end else begin
+                let (nm, rm) = build_sched ord wn all reserved nd false ss sched q in
+                let (_, rk) = build_sched ord wn all reserved nd true ss sched q in
+                let model = show_res rm in
+                let keepeq = if show_res rk = impl then 1 else 0 in
+                (* the call run alone at boundary j *)
+                let alone = ref (-1) in
+                for j = hi downto lo do
+                  let (_, r) = build_sched ord wn all reserved nd false ss [nat_of_int j] q in
+                  if show_res r = impl then alone := j
+                done;
+                let boundary = match result with
+                  | "ok" :: fee :: tot :: _n :: ins ->
+                    (match tx_boundary ord wn all reserved ss (nat_of_int lo) (nat_of_int hi) (List.map op_of ins) (zs tot) (zs fee) with
+                     | Some j -> int_of_nat j | None -> -1)
+                  | ["err"; ("insufficient" | "overfull")] ->
+                    (match refusal_boundary ord wn all reserved ss (nat_of_int lo) (nat_of_int hi) q with
+                     | Some j -> int_of_nat j | None -> -1)
+                  | ["err"; "lookup"] ->
+                    if lookup_can_fail ord wn all reserved nd ss (nat_of_int lo) (nat_of_int hi) then lo else -1
+                  | _ -> -1 in
+                Printf.printf "W\t%s\t%d\t%s\t%s\t%s\t%d\t%d\t%d\t%d\t%d\t%s\t%d\t%d\t%d\n" !hist !k callp impl model keepeq
+                  (List.length sl) (int_of_nat nm) boundary !alone
+                  (String.concat "," (List.map string_of_int sc_i)) lo hi others
+              end
+            | _ -> print_endline ("X\t" ^ line))
+         | _ -> print_endline ("X\t" ^ line))
     | "X" :: _ -> print_endline ("X\t" ^ line)
     | _ -> ())
